@@ -35,6 +35,10 @@ func vpH_C14_pool() {
 	a := g.batch("A", 0, 2, tpl)
 	b := g.batch("B", 0, 2, tpl)
 	g.done()
+	if vpChoice("A-has-an-early-field", 2) == 1 {
+		// a field that sorts before every other one: the field numbers of A and B differ
+		a = append(a, &vpDoc{fields: []*vpField{{name: "0a", length: 1, terms: []*vpTerm{{term: []byte("k"), freq: 1}}}}})
+	}
 	modeA, modeB := uint32(1025), uint32(1)
 	if vpChoice("modes", 2) == 1 {
 		modeA, modeB = 2, 1025
